@@ -1220,6 +1220,12 @@ func (e *absEnv) stdCall(fr *absFrame, name string, args []aval, depth int) (ava
 			return aslice{sl}, true
 		}
 		return newVals(es, et), true
+	case "time.Now":
+		// wall-clock readings are outside the abstraction: an opaque instant, and every elapsed time taken from it is
+		// zero (bookkeeping of durations must not change what a table decides; a branch on one is evaluated for 0)
+		return astruct{map[string]aval{}}, true
+	case "time.Since", "time.Until", "(time.Time).Sub":
+		return aint(0), true
 	case "cmp.Less":
 		// (for the ordered values of the abstraction — no NaN among them — cmp.Less is <)
 		if len(args) == 2 {
